@@ -1,5 +1,5 @@
 (* C16 -- undocumented keys are rejected, documented keys are accepted. *)
-From QV Require Import Model.Base Generated.Tables Model.Unquote Model.Unit Model.Path Model.Names Model.Convert Spec.Docs Proofs.C16.
+From QV Require Import Model.Base Generated.Tables Model.Unquote Model.Unit Model.Path Model.Names Model.Convert Spec.Docs Proofs.C16 Model.Parser Model.Process Model.ProcessD Proofs.C06trees Proofs.C16trees.
 
 (* the allow-lists found in the source today are exactly the documented key sets (finite: bound = the tables) *)
 Theorem C16_tables : (forall t, same_set (supported t) (documented t) = true) /\ same_set a_SUPPORTED_QUADLET_KEYS doc_keys_quadlet = true.
@@ -36,3 +36,20 @@ Proof. exact accept_documented. Qed.
 
 Check C16_reject.
 Check C16_accept.
+
+(* ---- over the whole run with drop-ins (Model/ProcessD.v): an undocumented key in the unit's own section or in [Quadlet], given in
+   the main file OR IN ANY OF ITS DROP-INS (values_raw u sec k ++ dropin_values ds sec k is the key's history over main file and
+   drop-ins), means the run yields no service for that file, whatever the other files are ---- *)
+Theorem C16_reject_in_the_run_with_dropins : forall podman exists_path kill_fixed mount_nl b (files : list (str * str * list str)) p text ds u t sec k,
+  NoDup (map (fun f : str * str * list str => fst (fst f)) files) -> In (p, text, ds) files ->
+  parse_unit text = Some u -> Forall (fun d => parse_unit d <> None) ds -> type_of_path p = Some t ->
+  (sec = type_section t /\ mem_str k (documented t) = false) \/ (sec = c_QUADLET_SECTION /\ mem_str k doc_keys_quadlet = false) ->
+  values_raw u sec k ++ dropin_values ds sec k <> [] ->
+  forall svc sp, ~ In (p, ROk svc sp) (snd (process_trees podman exists_path kill_fixed mount_nl b files)).
+Proof. exact trees_reject_undocumented_key. Qed.
+
+Theorem C16_dropin_unknown_key_example :
+  (exists svc sp, exk_run [s2l "[Container]" ++ [10] ++ s2l "Label=a=b" ++ [10]] = [(s2l "/d/a.container", ROk svc sp)]) /\
+  exk_run [s2l "[Container]" ++ [10] ++ s2l "Lable=a=b" ++ [10]] = [(s2l "/d/a.container", RErr (EUnknownKey (s2l "Lable")))] /\
+  exk_run [s2l "[Quadlet]" ++ [10] ++ s2l "Image=x" ++ [10]] = [(s2l "/d/a.container", RErr (EUnknownKey (s2l "Image")))].
+Proof. exact dropin_unknown_key_example. Qed.
